@@ -399,7 +399,7 @@ func vfRun30Once(c vfCase30, r *pbt.Rec) error {
 		}
 	}
 	if len(ctrList) > 1 {
-		r.Label("private-counters")
+		r.Label("several-counters")
 	} else if len(ctrList) == 1 {
 		r.Label("shared-counter")
 	}
@@ -427,9 +427,15 @@ func vfGen30For(backend string) func(t *rapid.T) vfCase30 {
 		nc := rapid.IntRange(4, 8).Draw(t, "conns")
 		nkeys := rapid.IntRange(1, 4).Draw(t, "nx-keys")
 		perConn := rapid.IntRange(8, 24).Draw(t, "ops-per-conn")
+		// 1-3 counters shared by all connections: conflict history of one key must survive commits on the others
+		nctr := rapid.SampledFrom([]int{1, 1, 2, 3}).Draw(t, "counters")
 		for i := 0; i < nc; i++ {
 			var ops []vfOp
 			for j := 0; j < perConn; j++ {
+				ctr := 0
+				if nctr > 1 {
+					ctr = rapid.IntRange(0, nctr-1).Draw(t, "ctr")
+				}
 				switch rapid.IntRange(0, 5).Draw(t, "kind") {
 				case 0:
 					ops = append(ops, vfOp{Kind: "INCR"})
@@ -443,6 +449,9 @@ func vfGen30For(backend string) func(t *rapid.T) vfCase30 {
 					ops = append(ops, vfOp{Kind: "SETNX", Key: rapid.IntRange(0, nkeys-1).Draw(t, "nx-key")})
 				default:
 					ops = append(ops, vfOp{Kind: "INCR"})
+				}
+				if last := &ops[len(ops)-1]; last.Kind != "SETNX" {
+					last.Ctr = ctr
 				}
 			}
 			c.Conns = append(c.Conns, ops)
@@ -468,6 +477,14 @@ func vfStatic30For(backend string) func() []vfCase30 {
 		var out []vfCase30
 		if !pbt.Open("C30-lost-update-" + backend) {
 			out = append(out, mk(8, 14, vfOp{Kind: "INCR"}, ""), mk(4, 25, vfOp{Kind: "INCRBY", Delta: 7}, "100"), mk(6, 16, vfOp{Kind: "DECRBY", Delta: 3}, "0"))
+			// three hot counters, every connection cycling over them from a different start
+			multi := mk(9, 24, vfOp{Kind: "INCR"}, "10")
+			for i, ops := range multi.Conns {
+				for j := range ops {
+					ops[j].Ctr = (i + j) % 3
+				}
+			}
+			out = append(out, multi)
 		}
 		if !pbt.Open("C30-nx-double-ok-" + backend) {
 			nx := vfCase30{Backend: backend}
@@ -532,7 +549,7 @@ func vfRun30Counted(c vfCase30, r *pbt.Rec) error {
 
 func TestCheck(t *testing.T) {
 	s := &pbt.Suite{ID: "C30", Level: "exploration",
-		Rule: "4-8 real connections to the real gateway, each running its own script (8-24 commands) of INCR / DECR / INCRBY d / DECRBY d on one counter and SET nx<i> v NX on 1-4 shared fresh keys, " +
+		Rule: "4-8 real connections to the real gateway, each running its own script (8-24 commands) of INCR / DECR / INCRBY d / DECRBY d on 1-3 counters shared by all connections and SET nx<i> v NX on 1-4 shared fresh keys, " +
 			"free-running in parallel goroutines (the schedule is the machine's, not the generator's). Backends: embedded (database opened as main() opens it) and raft (real raftBackend over the real raftstore/kv applier on a Percolator database, real PD TSO allocator, one region). " +
 			"Oracle: final GET counter = initial + sum of deltas of the INCR-family commands that replied with an integer; per NX key at most one +OK. " +
 			"Non-trivial = run in which two successful INCR-family commands of different connections overlapped in time (harness timestamps around request/reply).",
